@@ -2,7 +2,7 @@
 from ..rules import topology, delivery
 from .common import declare
 
-RULES = ['BOTH-ENDS', 'PER-UPSTREAM-OVERRIDE', 'BELIEF-CONSISTENT', 'WEAK-DOWN', 'STRONG-SINK', 'DESTROY-SUPER', 'FANOUT']
+RULES = ['BOTH-ENDS', 'PER-UPSTREAM-OVERRIDE', 'BELIEF-CONSISTENT', 'WEAK-DOWN', 'STRONG-SINK', 'DESTROY-SUPER', 'FANOUT', 'NONE-SENTINEL']
 FLOORS = {'BOTH-ENDS': 5, 'PER-UPSTREAM-OVERRIDE': 4, 'BELIEF-CONSISTENT': 0, 'WEAK-DOWN': 3, 'STRONG-SINK': 4,
           'DESTROY-SUPER': 3, 'FANOUT': 3}
 
@@ -34,6 +34,8 @@ def run(ctx, R):
     R.run(topology.check_edit_reach, ctx, R)
     R.run(topology.check_destroy_super, ctx, R, nodes)
     R.run(delivery.check_fanout, ctx, R)
+    R.run(topology.check_none_sentinel, ctx, R, [c for c in nodes if c.module.name == 'streamz.core'])
 
 
 META['level'] += ' connect()/disconnect() reach neither destroy() nor the removal from _global_sinks (call-graph closure), and per-upstream fields are resized unconditionally.'
+META['level'] += ' NONE-SENTINEL: an optional constructor argument (e.g. combine_latest emit_on) is never tested for truthiness where another site tests it against None.'
